@@ -70,6 +70,10 @@ func c14Model(s *c14Shape) {
 	case "extend", "extendrx":
 		// the first result is the target: `func(KA) error` is a valid (here unused) function converting KA to error
 		s.accept = sources == 1 && okRes("T", "T,error", "error")
+	case "extendlate":
+		// the regex is written AFTER the extend line: settings apply in source order, so a parameter that only the
+		// later regex matches is an ordinary source for this function
+		s.accept = countRole(s.roles, "SBR") == 1 && okRes("T", "T,error", "error")
 	case "map", "default":
 		// optional source; a single source must be the mapped field's / method's source type (role S)
 		s.accept = sources <= 1 && countRole(s.roles, "B") == 0 && okRes("T", "T,error")
@@ -91,7 +95,7 @@ func c14Shapes(use string, roleSet []string, resultSet []string, maxParams int, 
 					s := c14Shape{use: use, named: named, roles: append([]string{}, cur...), results: res, regexAt: "conv"}
 					c14Model(&s)
 					out = append(out, s)
-					if countRole(cur, "R") > 0 && use != "extend" && use != "extendrx" && use != "structmethod" {
+					if countRole(cur, "R") > 0 && use != "extend" && use != "extendrx" && use != "extendlate" && use != "structmethod" {
 						s2 := s
 						s2.roles = append([]string{}, cur...)
 						s2.regexAt = "meth"
@@ -336,6 +340,9 @@ func c14FuncCase(name string, s c14Shape) *pgen.Case {
 	case "extend":
 		sb.WriteString(strings.Join(docs, "\n") + "\nfunc Fn" + sig + " { " + body + " }\n")
 		conv = append(conv, "extend Fn")
+	case "extendlate":
+		sb.WriteString(strings.Join(docs, "\n") + "\nfunc Fn" + sig + " { " + body + " }\n")
+		conv = []string{"extend Fn", "arg:context:regex ^rx"}
 	case "extendrx":
 		// selected by a regular expression: the function-level goverter:context lines must still be found
 		sb.WriteString(strings.Join(docs, "\n") + "\nfunc Fn" + sig + " { " + body + " }\n")
@@ -367,7 +374,7 @@ func c14FuncCase(name string, s c14Shape) *pgen.Case {
 	// expected K.N
 	exp := "5" // automatic conversion of K (N: 5)
 	usesFn := true
-	if (s.use == "extend" || s.use == "extendrx") && (countRole(s.roles, "S") == 0 || s.results == "error") {
+	if (s.use == "extend" || s.use == "extendrx" || s.use == "extendlate") && (countRole(s.roles, "S") == 0 || s.results == "error") {
 		usesFn = false // an extend function for another pair is valid but unused
 	}
 	if usesFn {
@@ -426,6 +433,7 @@ func C14(e *core.Env) int {
 	}
 	shapes = append(shapes, c14Shapes("extendrx", []string{"S", "C", "R"}, []string{"T", "T,error"}, 3, false)...)
 	shapes = append(shapes, c14Shapes("structmethod", []string{"C"}, funcRes, 2, true)...)
+	shapes = append(shapes, c14Shapes("extendlate", []string{"S", "R", "C"}, []string{"T", "T,error"}, 2, false)...)
 	// variadic last parameter in a context role (accepted method shapes only)
 	for _, s := range append([]c14Shape{}, shapes...) {
 		if (s.use == "iface" || s.use == "vars") && s.accept && s.named && len(s.roles) > 0 && strings.Contains("CR", s.roles[len(s.roles)-1]) {
@@ -441,7 +449,7 @@ func C14(e *core.Env) int {
 		r := rand.New(rand.NewSource(e.Seed*31 + 14))
 		var sel []c14Shape
 		for _, s := range shapes {
-			small := s.use == "structmethod" || s.use == "extendrx" || s.variadic // small families are always complete
+			small := s.use == "structmethod" || s.use == "extendrx" || s.use == "extendlate" || s.variadic // small families are always complete
 			if small || (s.accept && r.Intn(2) == 0) || (!s.accept && r.Intn(6) == 0) {
 				sel = append(sel, s)
 			}
